@@ -38,6 +38,8 @@ fn main() {
     let a: Value = serde_json::from_str(&s).expect("json args");
     let out = if let Some(v) = k2d::run(&kernel, &a) {
         v
+    } else if let Some(v) = k2d::run2(&kernel, &a) {
+        v
     } else if let Some(v) = kmesh::run(&kernel, &a) {
         v
     } else if let Some(v) = kseries::run(&kernel, &a) {
